@@ -22,11 +22,11 @@ Definition wait_of {S} (r : runstate S) : option nat :=
 Definition check_case (c : case) : bool :=
   match c with
   | CLayer table evs out tr w q =>
-    let '(st, out', tr', _) := run_events (table_handler table) ME (init 0) evs in
+    let '(st, out', tr', _) := run_events (table_handler table) ME (init (0, 0)) evs in
     list_eqb cmd_eqb out' out && list_eqb titem_eqb (no_pause tr') tr
     && option_eqb Nat.eqb (wait_of (run st)) w && list_eqb event_eqb (queue st) q
   | CNext aos table evs out chosen delivered buffered pq cw cq =>
-    let '(s, out', _) := nl_run (table_handler table) ME NL aos (nl_init 0 NLCTR) evs in
+    let '(s, out', _) := nl_run (table_handler table) ME NL aos (nl_init (0, 0) NLCTR) evs in
     list_eqb cmd_eqb out' out && Bool.eqb (nl_chosen s) chosen
     && list_eqb event_eqb (nl_delivered s) delivered
     && list_eqb event_eqb (nl_events s) buffered
